@@ -63,6 +63,9 @@ def main(tier, replay, t0):
             continue
         x = c.cfgs[0]
         if c.gen[x["id"]].get("result") != "ok":
+            v = probes.refusal_violation(c, x, "bind group type")
+            if v:
+                viol.append(v)
             continue
         if not camp.module_ok(c.id, x["id"]):
             lost += 1
